@@ -54,6 +54,7 @@ def run(ctx):
     from . import c15, c17
     c15.cli_arm_dep(ctx, "C11", ('Cgr',))
     c17.open_rules(dep(ctx, "C11", "C17"))
+    rule_threads_default(ctx, "C11.O", "composition::cgr::CgrComputer")
     fw_ = ctx.view("composition::cgr::CgrComputer::vectorise")
     if fw_ is not None:
         rule_output_always_created(dep(ctx, "C11", "C17"), "C17.W", fw_, "cgr::vectorise")   # "length 0": no points, but a file
